@@ -30,6 +30,11 @@ import (
 // predefined in protocol_test.go, five in the tecdsatest fixtures) are the
 // parameter data; identity of a parameter is (fixture, creation timestamp).
 
+const (
+	c39KeyD9  = "D9-nil-after-save-failure"
+	c39KeyD9b = "D9b-incomplete-preparams-record"
+)
+
 type c39NopLogger struct{}
 
 func (c39NopLogger) Debug(args ...interface{})                   {}
@@ -223,7 +228,7 @@ func TestVerif_C39_StorageRoundTrip(t *testing.T) {
 				if which < 0 {
 					t.Logf("history: %s", strings.Join(tr, " "))
 					t.Logf("record %s: %s", p.ID, c39Shape(p.Data.data))
-					t.Fatalf("ReadAll returned an incomplete or altered pre-parameter set (a parameter that was never generated) [finding-key=D11-incomplete-preparams-record]")
+					t.Fatalf("ReadAll returned an incomplete or altered pre-parameter set (a parameter that was never generated) [finding-key=D9b-incomplete-preparams-record]")
 				}
 				var rec *c39Record
 				for k := range model {
@@ -320,6 +325,13 @@ func TestVerif_C39_StorageRoundTrip(t *testing.T) {
 				storage = newPreParamsStorage(handle, c39NopLogger{})
 				tr = append(tr, "reopen")
 			case "foreign":
+				if verifkit.Known(c39KeyD9b) {
+					switch kind {
+					case "empty", "old-format", "no-q", "no-ntilde", "no-paillier", "no-data":
+						st.Excluded(c39KeyD9b) // open known finding: steer around it
+						kind = "garbage"
+					}
+				}
 				// what a crash in the middle of a write, a damaged disk or an
 				// older client version may leave in the directory
 				pp := &PreParams{data: fx[k], creationTimestamp: c39Epoch.Add(off)}
@@ -532,6 +544,10 @@ func TestVerif_C39_PoolOverRealStorage(t *testing.T) {
 		for i := 0; i < steps; i++ {
 			op := rapid.SampledFrom([]string{"gen", "gen", "gen", "gen-savefail", "gen-savefail", "get", "get", "get", "get-delfail", "restart"}).Draw(t, "op")
 			k := rapid.IntRange(0, len(fx)-1).Draw(t, "fixture")
+			if op == "gen-savefail" && verifkit.Known(c39KeyD9) {
+				st.Excluded(c39KeyD9) // open known finding: steer around it
+				op = "gen"
+			}
 			switch op {
 			case "gen", "gen-savefail":
 				if len(life.content) >= size {
